@@ -181,8 +181,14 @@ func (s *Sim) compareEvents(o *Op, b *WB, chs []Change) *Finding {
 	got := b.Rec.Cur
 	exp := map[int]ExpectedEvent{}
 	for _, ch := range chs {
-		exp[ch.Ord] = s.M.ExpectEvent(ch)
+		ex := s.M.ExpectEvent(ch)
+		exp[ch.Ord] = ex
+		if ex.Bits&event.Relations != 0 {
+			s.Flag("events.relation", 1)
+			s.label("event with relation/target bits: " + o.K)
+		}
 	}
+	s.Flag("events.expected", len(exp))
 	seen := map[int]bool{}
 	for i := range got {
 		g := &got[i]
